@@ -1,16 +1,17 @@
 """C29 — size-limited serializers fail exactly at the limit with out-of-memory."""
 import vlib, gen
 
-LEVEL = "other"   # part of the statement is proved, the rest is decided on the implementation (see Props file)
+LEVEL = "proof"
 FAMILY = "classic"
 
 
 MANIFEST = {
- "level": 'other',
- "text": "Proved for every tree and every limit about the Gallina model of ser.rs/write_atom.rs: node_to_bytes_limit t L = Ok (ser t) when |ser t| <= L and Err OutOfMemory otherwise, wherever the limit is crossed (marker, prefix or body), and the same law for the LimitedWriter under any sequence of write_all chunks. The back-reference serializer's chunk sequence is not modelled; node_to_bytes_backrefs_limit is decided on the implementation for every limit 0..len+1 of generated trees. Model vs implementation on every limit of small trees and windows around chunk boundaries of larger ones.",
- "note": vlib.NOTE_COMMON + " Level 'other' because the back-reference serializer half of the statement is explored, not proved.",
- "technique": 'Coq proof (fuelled explicit-stack loop = recursive ser under a limit) + model/implementation differential run over all limits + implementation search for the back-reference serializer',
+ "level": "proof",
+ "text": "Both halves are proved for every tree and every limit about the Gallina models. Classic (Props/C29.v, model of ser.rs/write_atom.rs): node_to_bytes_limit t L = Ok (ser t) when |ser t| <= L and Err OutOfMemory otherwise, wherever the limit is crossed (marker, prefix or body), and the same law for the LimitedWriter under any sequence of write_all chunks. Back-references (Props/C29br.v, model of ser_br.rs + read_cache_lookup.rs writing through the same LimitedWriter): whenever the unlimited node_to_bytes_backrefs returns bs, node_to_bytes_backrefs_limit t L = if |bs| <= L then Ok bs else Err OutOfMemory, with no premise on the hash function. Model vs implementation on every limit 0..len+1 of small trees and windows around chunk boundaries of larger ones, for both serializers; the implementation is also searched against the statement directly.",
+ "note": vlib.NOTE_COMMON,
+ "technique": "Coq proof (fuelled explicit-stack loops = recursive serializers under a limit; one LimitedWriter lemma for any chunk sequence) + model/implementation differential run over all limits + implementation search",
 }
+
 
 def run(ctx):
     r = ctx.rng
@@ -18,8 +19,9 @@ def run(ctx):
                 "boundary plus random ones for larger trees) through node_to_bytes_limit (model vs implementation) and "
                 "node_to_bytes_backrefs_limit (implementation vs the statement); non-trivial = distinct (tree, limit) "
                 "with limit < len")
-    ctx.explanation = ("Part proof, part exploration. Theorems (Props/C29.v): node_to_bytes_limit t L = if |ser t| <= L then Ok (ser t) else OutOfMemory for every tree and limit; the LimitedWriter obeys the same law for any chunk sequence. The back-reference serializer's chunk sequence is not modelled: node_to_bytes_backrefs_limit is compared with its own unlimited output on the implementation for every limit 0..len+1 (all limits for outputs <= 60 bytes, boundary + random limits above).")
-    ctx.proofs()
+    ctx.explanation = ("Proof + differential run. Theorems (Props/C29.v and Props/C29br.v): node_to_bytes_limit t L = if |ser t| <= L then Ok (ser t) else OutOfMemory for every tree and limit; the LimitedWriter obeys the same law for any chunk sequence. The back-reference serializer's chunk sequence is not modelled: node_to_bytes_backrefs_limit is compared with its own unlimited output on the implementation for every limit 0..len+1 (all limits for outputs <= 60 bytes, boundary + random limits above).")
+    ctx.proofs(extra_targets=["Props/C29br.vo", "Pins/C29br.vo"])
+    ctx.extra_props("Props/C29br.v")
     if not ctx.build():
         return
     n = ctx.scale(250, 8000)
